@@ -733,12 +733,15 @@ func builtinKeys(i *Interpreter, args []Expr, env *Environment) (interface{}, er
 }
 
 // callCallable invokes a callable (LambdaClosure or Function) with the given arguments.
-func (i *Interpreter) callCallable(fn interface{}, args []interface{}) (interface{}, error) {
+// env is the scope of the call: a declared function runs, as when it is called
+// directly, in a scope of its own under the global one (so that it can call the
+// module's other functions) that counts evaluation depth with its caller.
+func (i *Interpreter) callCallable(fn interface{}, args []interface{}, env *Environment) (interface{}, error) {
 	switch f := fn.(type) {
 	case *LambdaClosure:
 		return i.callLambdaClosure(f, args)
 	case Function:
-		fnEnv := NewChildEnvironment(NewEnvironment())
+		fnEnv := i.newFunctionEnvironment(env)
 		for idx, param := range f.Params {
 			if idx < len(args) {
 				fnEnv.Define(param.Name, args[idx])
@@ -753,7 +756,7 @@ func (i *Interpreter) callCallable(fn interface{}, args []interface{}) (interfac
 		}
 		return result, nil
 	case *Function:
-		return i.callCallable(*f, args)
+		return i.callCallable(*f, args, env)
 	default:
 		return nil, fmt.Errorf("expected a function, got %T", fn)
 	}
@@ -777,7 +780,7 @@ func builtinMap(i *Interpreter, args []Expr, env *Environment) (interface{}, err
 	}
 	result := make([]interface{}, len(arr))
 	for idx, elem := range arr {
-		val, err := i.callCallable(fnArg, []interface{}{elem})
+		val, err := i.callCallable(fnArg, []interface{}{elem}, env)
 		if err != nil {
 			return nil, fmt.Errorf("map() callback error at index %d: %v", idx, err)
 		}
@@ -804,7 +807,7 @@ func builtinFilter(i *Interpreter, args []Expr, env *Environment) (interface{}, 
 	}
 	result := make([]interface{}, 0)
 	for idx, elem := range arr {
-		val, err := i.callCallable(fnArg, []interface{}{elem})
+		val, err := i.callCallable(fnArg, []interface{}{elem}, env)
 		if err != nil {
 			return nil, fmt.Errorf("filter() callback error at index %d: %v", idx, err)
 		}
@@ -836,7 +839,7 @@ func builtinReduce(i *Interpreter, args []Expr, env *Environment) (interface{}, 
 		return nil, err
 	}
 	for idx, elem := range arr {
-		acc, err = i.callCallable(fnArg, []interface{}{acc, elem})
+		acc, err = i.callCallable(fnArg, []interface{}{acc, elem}, env)
 		if err != nil {
 			return nil, fmt.Errorf("reduce() callback error at index %d: %v", idx, err)
 		}
@@ -861,7 +864,7 @@ func builtinFind(i *Interpreter, args []Expr, env *Environment) (interface{}, er
 		return nil, err
 	}
 	for idx, elem := range arr {
-		val, err := i.callCallable(fnArg, []interface{}{elem})
+		val, err := i.callCallable(fnArg, []interface{}{elem}, env)
 		if err != nil {
 			return nil, fmt.Errorf("find() callback error at index %d: %v", idx, err)
 		}
@@ -889,7 +892,7 @@ func builtinSome(i *Interpreter, args []Expr, env *Environment) (interface{}, er
 		return nil, err
 	}
 	for idx, elem := range arr {
-		val, err := i.callCallable(fnArg, []interface{}{elem})
+		val, err := i.callCallable(fnArg, []interface{}{elem}, env)
 		if err != nil {
 			return nil, fmt.Errorf("some() callback error at index %d: %v", idx, err)
 		}
@@ -917,7 +920,7 @@ func builtinEvery(i *Interpreter, args []Expr, env *Environment) (interface{}, e
 		return nil, err
 	}
 	for idx, elem := range arr {
-		val, err := i.callCallable(fnArg, []interface{}{elem})
+		val, err := i.callCallable(fnArg, []interface{}{elem}, env)
 		if err != nil {
 			return nil, fmt.Errorf("every() callback error at index %d: %v", idx, err)
 		}
@@ -953,7 +956,7 @@ func builtinSort(i *Interpreter, args []Expr, env *Environment) (interface{}, er
 			if sortErr != nil {
 				return false
 			}
-			val, err := i.callCallable(fnArg, []interface{}{result[a], result[b]})
+			val, err := i.callCallable(fnArg, []interface{}{result[a], result[b]}, env)
 			if err != nil {
 				sortErr = err
 				return false
